@@ -1,3 +1,4 @@
 /- aggregator: property theorems of C14 plus the source-tie theorems of the scalar decision logic regenerated from the C++ -/
 import SmoothProps.C14
 import SmoothProps.SrcTieLogic
+import SmoothProps.SrcTieFitSpec
